@@ -109,7 +109,7 @@ def work(arg):
 
 
 # ---- rule names: the values of an assignment must not depend on how the rule on its right-hand side is called
-ODD_NAMES = ["sep", "eolterm", "skipws", "ws", "split", "Sep", "plain", "optional", "list", "Item"]
+ODD_NAMES = ["sep", "eolterm", "skipws", "ws", "split", "Sep", "plain", "optional", "list", "Item", "type", "object", "str", "int", "dict", "Postponed", "Model"]
 
 
 def names_family():
